@@ -246,12 +246,13 @@ def fmt_expected(x, f):
 
 
 def work_text(job):
-    k0, m = job
+    k0, m = job[:2]
+    big = len(job) > 2 and job[2]
     acc = Acc()
     ev = feval.Evaluator()
     i = 0
-    for j in range(0, 4):
-        for k in range(-3000, 3001):
+    for j in range(0, 5 if big else 4):
+        for k in (range(-30000, 30001) if big else range(-3000, 3001)):
             i += 1
             if i % m != k0:
                 continue
@@ -325,7 +326,7 @@ def run(ctx):
     ctx.pmap(work_slicing, [((k + ctx.seed) % m, m, ml) for k in range(m)], timeout=6000)
     ctx.pmap(work_search, [(k, m, ml) for k in range(m)], timeout=6000)
     ctx.pmap(work_numbers, [(0,)], timeout=600)
-    ctx.pmap(work_text, [(k, 32) for k in range(32)], timeout=3000)
+    ctx.pmap(work_text, [(k, 64, ctx.thorough) for k in range(64)], timeout=6000)
     ctx.counts['traces_validated_against_impl'] = ctx.counts.get('evaluations', 0)
     ctx.extra['alphabet'] = ALPHA
     ctx.extra['formats'] = FORMATS
